@@ -46,4 +46,7 @@ class U3GateToRotation(DecompositionRule[GateOperation]):
 def decompose_orquestra_circuit(
     circuit: Circuit, decomposition_rules: Sequence[DecompositionRule[GateOperation]]
 ):
-    return Circuit(decompose_operations(circuit.operations, decomposition_rules))
+    return Circuit(
+        decompose_operations(circuit.operations, decomposition_rules),
+        n_qubits=circuit.n_qubits,
+    )
